@@ -220,6 +220,13 @@ class CompilerState(CoderState):
     def add_bitmap_link(self):
         self.add_statement(StateMethodCall(get_func_name()))
 
+    def cancel_new_refvals(self):
+        # The compiler needs the cancellation itself (which descriptors have a new
+        # reference value is resolved at compile time) and so does the runtime state
+        # (marker operators look the values up at run time).
+        super(CompilerState, self).cancel_new_refvals()
+        self.add_statement(StateMethodCall(get_func_name()))
+
 
 class TemplateCompiler(Coder):
     """
